@@ -80,6 +80,13 @@ Section Rets.
     destruct H as [Hc Hk]. split; auto.
   Qed.
 
+  Lemma rets_bind_inv {A B} (P : B -> Prop) (p : prog A) (f : A -> prog B) :
+    rets P (bind p f) -> rets (fun a => rets P (f a)) p.
+  Proof.
+    induction p as [a|c k IH|o p IH]; simpl; intros H; auto.
+    destruct H as [Hc Hk]. split; auto.
+  Qed.
+
   Lemma rets_weaken {A} (P Q : A -> Prop) (p : prog A) :
     (forall a, P a -> Q a) -> rets P p -> rets Q p.
   Proof.
@@ -112,3 +119,47 @@ Section Rets.
     destruct (c_public c || cr_ok cr)%bool; simpl; auto.
   Qed.
 End Rets.
+
+(* ---- the sequential run of the two lookups: the store is unchanged and the answer is a function of it ---- *)
+Lemma run_seq_bind {A B} (p : prog A) (f : A -> prog B) : forall st,
+  run_seq (bind p f) st = run_seq (f (snd (run_seq p st))) (fst (run_seq p st)).
+Proof.
+  induction p as [a|c k IH|o p IH]; intros st; simpl; auto.
+  destruct (exec c st) as [st' r]. apply IH.
+Qed.
+
+Definition client_of (w : world) (st : store) (i : id) : option client :=
+  match find_client i (w_static w) with
+  | Some c => Some c
+  | None => find_client i (st_clients st)
+  end.
+Lemma run_get_client w i st : run_seq (get_client w i) st = (st, client_of w st i).
+Proof.
+  unfold get_client, client_of. destruct (find_client i (w_static w)); simpl; auto.
+  destruct (find_client i (st_clients st)); reflexivity.
+Qed.
+Definition auth_of (w : world) (st : store) (cr : cred) : option client :=
+  if is_nil (cr_id cr) then None else
+  match client_of w st (cr_id cr) with
+  | Some c => if orb (c_public c) (cr_ok cr) then Some c else None
+  | None => None
+  end.
+Lemma run_authenticated w cr st : run_seq (authenticated w cr) st = (st, auth_of w st cr).
+Proof.
+  unfold authenticated, auth_of. destruct (is_nil (cr_id cr)); simpl; auto.
+  rewrite run_seq_bind, run_get_client. simpl. destruct (client_of w st (cr_id cr)) as [c|]; simpl; auto.
+  destruct (c_public c || cr_ok cr)%bool; reflexivity.
+Qed.
+Lemma client_of_some w st i c : client_of w st i = Some c -> (In c (w_static w) \/ In c (st_clients st)) /\ c_id c = i.
+Proof.
+  unfold client_of. destruct (find_client i (w_static w)) eqn:E.
+  - intros H; injection H as <-. apply find_client_some in E as [E1 E2]. auto.
+  - intros H. apply find_client_some in H as [E1 E2]. auto.
+Qed.
+Lemma auth_of_some w st cr c : auth_of w st cr = Some c -> (In c (w_static w) \/ In c (st_clients st)) /\ c_id c = cr_id cr.
+Proof.
+  unfold auth_of. destruct (is_nil (cr_id cr)); [discriminate|].
+  destruct (client_of w st (cr_id cr)) as [c'|] eqn:E; [|discriminate].
+  destruct (c_public c' || cr_ok cr)%bool; [|discriminate]. intros H; injection H as <-.
+  apply client_of_some in E. exact E.
+Qed.
